@@ -18,8 +18,12 @@ from ..guard import Deps
 from ..facts import AnalysisError
 from . import c04, c05
 
+from ..absint import short_vn
+
 TARGETS = ('--lib',)
 READ_PRIMS = ('AsyncReadExt::read', 'libc::pread', 'fs::File::read_at')
+# primitives that turn a short read (end of file) into an error instead of returning the count
+EXACT_READ_PRIMS = ('AsyncReadExt::read_exact', 'fs::File::read_exact_at', 'FileExt::read_exact_at', 'Read::read_exact')
 WRITE_PRIMS = ('AsyncWriteExt::write', 'libc::pwrite', 'fs::File::write_at')
 FLUSH_PRIMS = ('AsyncWriteExt::flush',)
 
@@ -76,6 +80,52 @@ def in_loop(b, bi):
     return False
 
 
+def punch_range_rule(f, rep, ph):
+    """linux_punch_hole hands the kernel exactly the requested range: the offset and length operands of the
+    fallocate call are its own parameters (through casts only), and no Ok return bypasses the call.  (The kernel
+    zeroes partial blocks of an unaligned punch; a helper that shrinks the range and reports success leaves old
+    bytes where the model and the other platforms read zeros.)"""
+    from ..absint import AbsInt
+    ai = AbsInt(f)
+    seen = []
+
+    def hook(ai_, st, frame, b, bi, t, args):
+        seen.append((b, bi, list(args)))
+        return None
+    ai.hooks['nix::fcntl::fallocate'] = hook
+    ai.analyze(ph.path)
+
+    def peel(v):
+        n = 0
+        while isinstance(v, tuple) and v and v[0] in ('wrap', 'cast') and n < 8:
+            v = v[1]
+            n += 1
+        return v
+    rep.floor('fallocate calls in linux_punch_hole', len(seen), 1)
+    for b, bi, args in seen:
+        if b.path != ph.path or len(args) < 4:
+            continue
+        for idx, pi, what in ((2, 1, 'offset'), (3, 2, 'length')):
+            v = peel(args[idx])
+            ok = v[0] == 'u' and v[1] == ('param', ph.path, pi)
+            rep.ob('C19.F', 'linux_punch_hole passes its %s to fallocate unchanged' % what, ok, short_vn(v)[:120])
+            if not ok:
+                rep.violation('C19.F', 'C19.F:linux_punch_hole:%s' % what, b.where(bi),
+                              'linux_punch_hole calls fallocate with a %s that is not the requested one (%s): bytes of the request '
+                              'outside the punched range keep their old content while the caller is told the range reads as zeros'
+                              % (what, short_vn(v)[:120]))
+    callbs = [bi for b, bi, _a in seen if b.path == ph.path]
+    for bi in sorted(ph.reachable()):
+        for s_ in ph.blocks[bi]['st']:
+            if s_['k'] == 'assign' and s_['pl']['l'] == 0 and not s_['pl']['p'] and s_['rv']['k'] == 'agg' and s_['rv'].get('vn') == 'Ok':
+                ok = any(ph.dominates(c, bi) for c in callbs)
+                rep.ob('C19.F', 'Ok of linux_punch_hole at %s follows the fallocate call' % ph.where(bi), ok, '')
+                if not ok:
+                    rep.violation('C19.F', 'C19.F:linux_punch_hole:bypass', ph.where(bi),
+                                  'linux_punch_hole returns Ok on a path that does not call fallocate: the range is reported as '
+                                  'zeroed/released although nothing was done (the zero-write fallback only runs on Err)')
+
+
 def run(ctx, rep):
     f = ctx.lib
     P = Program(f)
@@ -102,6 +152,15 @@ def run(ctx, rep):
         bodies = reach_bodies(f, P, rb)
         found = False
         for b in bodies:
+            ex = prim_calls(f, P, b, EXACT_READ_PRIMS)
+            rep.ob('C19.R', '%s::read_to read primitive reports short reads (%s)' % (name, short(b.path)), not ex,
+                   'uses %s' % [x[1].split('::')[-1] for x in ex])
+            if ex:
+                found = True
+                rep.violation('C19.R', 'C19.R:%s:exact' % name, b.where(ex[0][0]),
+                              '%s::read_to reads with %s, which fails with UnexpectedEof when the file ends inside the '
+                              'request: a read that touches the end of the host file is an error on this backend and a short '
+                              'count on the others' % (name, ex[0][1].split('::')[-1]))
             pcs = prim_calls(f, P, b, READ_PRIMS)
             if not pcs:
                 continue
@@ -250,6 +309,7 @@ def run(ctx, rep):
     if not okh:
         rep.violation('C19.F', 'C19.F:linux_punch_hole', ph.where(0),
                       'linux_punch_hole does not call fallocate with PUNCH_HOLE|KEEP_SIZE: punching changes the file length or does not deallocate')
+    punch_range_rule(f, rep, ph)
     # library wrapper fallback (fault model) and fsync (shared rules)
     snap = c04.closure_cached(f, faults=True)
     fb_viol = [k for k, v in snap.viol.items() if v['rule'] == 'C17.3' and k.endswith(':fallback')]
